@@ -276,6 +276,8 @@ fn mutants(w: &World, p: &Pending, rng: &mut Rng, other_reply: Option<&Slate>, p
 			("attacker: higher fee taken from the amount, fee and amount left in the reply", -7_000_000, 7_000_000, false, true),
 			("attacker: lower fee added to the amount, fee and amount left in the reply", 2_000_000, -2_000_000, false, true),
 			("attacker: higher fee taken from the amount, only the fee left in the reply", -7_000_000, 7_000_000, false, true),
+			("attacker+planted-receive: higher fee taken from the amount, fee and amount left in the reply, state switched to Invoice2", -7_000_000, 7_000_000, false, true),
+			("attacker+planted-receive: lower fee added to the amount, fee and amount left in the reply, state switched to Invoice2", 2_000_000, -2_000_000, false, true),
 		]
 		.iter()
 		{
@@ -326,7 +328,7 @@ fn mutants(w: &World, p: &Pending, rng: &mut Rng, other_reply: Option<&Slate>, p
 			} else if name.contains("only the fee") {
 				s.amount = 0;
 			}
-			s.state = SlateState::Standard2;
+			s.state = if name.contains("state switched to Invoice2") { SlateState::Invoice2 } else { SlateState::Standard2 };
 			v.push((name.to_string(), s));
 		}
 	}
@@ -786,6 +788,87 @@ fn cancelled_then_finalized(w: &mut World, rep: &mut Report, rng: &mut Rng, prop
 	cleanup(w);
 }
 
+/// A late-locked send driven in the order the command-line `send` uses: init_send_tx(late_lock), then
+/// tx_lock_outputs (the CLI calls it after every init), the recipient's reply, finalize_tx - retried once if
+/// refused. Whatever is returned from finalization must spend exactly inputs reserved for that send.
+fn late_lock_cli_order(w: &mut World, rep: &mut Report, rng: &mut Rng, prop: &str, no_change: bool) {
+	fund(w);
+	let wal = &w.wallets[0];
+	let _ = wal.refresh();
+	let height = w.node.chain().head().map(|h| h.height).unwrap_or(0);
+	let coin = wal.all_outputs().unwrap_or_default().into_iter().filter(|o| o.eligible_to_spend(height, 1) && o.root_key_id == wal.active_account().unwrap()).map(|o| o.value).max();
+	let coin = match coin {
+		Some(c) => c,
+		None => return,
+	};
+	let args = if no_change {
+		InitTxArgs { amount: coin, amount_includes_fee: Some(true), minimum_confirmations: 1, max_outputs: 1, num_change_outputs: 1, selection_strategy_is_use_all: false, late_lock: Some(true), ..Default::default() }
+	} else {
+		InitTxArgs { amount: 1_000_000_000 + rng.below(3_000_000_000), minimum_confirmations: 1, num_change_outputs: 1, selection_strategy_is_use_all: false, late_lock: Some(true), ..Default::default() }
+	};
+	let case = json!({"job": prop, "scenario": "late-locked send in the command line's call order: init_send_tx(late_lock), tx_lock_outputs, reply, finalize_tx (retried once)", "no_change_output": no_change});
+	let s1 = match wal.init_send(args) {
+		Ok(s) => s,
+		Err(e) => {
+			rep.count(&format!("late-lock-cli-order:setup-refused:{}", err_kind(&e)));
+			return;
+		}
+	};
+	let lock = wal.lock_outputs(&s1);
+	rep.count(&format!("late-lock-cli-order:early-lock:{}", if lock.is_ok() { "ok" } else { "refused" }));
+	let s2 = match w.wallets[1].receive(&s1, None) {
+		Ok(s) => s,
+		Err(e) => {
+			rep.count(&format!("late-lock-cli-order:receive-refused:{}", err_kind(&e)));
+			cleanup(w);
+			return;
+		}
+	};
+	rep.eval();
+	let mut done = None;
+	for attempt in 0..2 {
+		match catch(|| wal.finalize(&s2)) {
+			Err((loc, msg)) => {
+				rep.violation(&format!("{}|panic|{}", prop, loc), &msg, case.clone());
+				break;
+			}
+			Ok(Err(e)) => rep.count(&format!("late-lock-cli-order:finalize-attempt-{}:refused:{}", attempt + 1, err_kind(&e))),
+			Ok(Ok(s3)) => {
+				done = Some(s3);
+				break;
+			}
+		}
+	}
+	match done {
+		None => rep.distinct(&("late-lock-cli-order", no_change, "refused")),
+		Some(s3) => {
+			let outs = wal.all_outputs().unwrap_or_default();
+			let entry = wal.all_txs().unwrap_or_default().into_iter().find(|t| t.tx_slate_id == Some(s1.id) && t.tx_type == libwallet::TxLogEntryType::TxSent);
+			let eid = entry.as_ref().map(|t| t.id);
+			let mut bad: Vec<String> = vec![];
+			let mut own_inputs = 0;
+			if let Some(tx) = s3.tx.as_ref() {
+				for c in tx.inputs_committed() {
+					if let Some(o) = outs.iter().find(|o| wal.commit_of(o) == c) {
+						own_inputs += 1;
+						if o.status != OutputStatus::Locked || o.tx_log_entry != eid || eid.is_none() {
+							bad.push(format!("{} value {} is {} (entry link {:?}, the send's entry {:?})", idstr(&o.key_id), o.value, status_str(&o.status), o.tx_log_entry, eid));
+						}
+					}
+				}
+			}
+			if s3.tx.is_none() || own_inputs == 0 || !bad.is_empty() {
+				rep.violation(&format!("{}|late-lock-after-early-tx_lock_outputs|finalized-with-inputs-not-reserved", prop), &format!("finalize_tx returned a transaction for a late-locked send on which tx_lock_outputs had been called first ({:?}); inputs not reserved for it: {:?}; log entry {:?}", lock.as_ref().map_err(err_kind), bad, entry.map(|t| (t.id, t.num_inputs, t.amount_debited))), case.clone());
+			} else {
+				rep.count("late-lock-cli-order:accepted-with-inputs-reserved");
+				rep.distinct(&("late-lock-cli-order", no_change, "accepted"));
+			}
+		}
+	}
+	let _ = w.wallets[1].cancel(None, Some(s1.id));
+	cleanup(w);
+}
+
 pub fn run(a: &Args, prop: &'static str) {
 	let mut rep = Report::new(prop);
 	let mut rng = Rng::new(a.shard_seed() ^ hash64(&prop));
@@ -820,6 +903,16 @@ pub fn run(a: &Args, prop: &'static str) {
 			let (name, slate) = ms[i].clone();
 			i += 1;
 			rep.eval();
+			if name.starts_with("attacker+planted-receive") {
+				// the recipient knows the slate id: before replying it pays the sender a small unrelated amount
+				// under that same id, so that the sender's log holds a *received* entry with the id of its send
+				let planted = (|| -> Result<(), libwallet::Error> {
+					let mut s = w.wallets[1].init_send(InitTxArgs { amount: 50_000_000, minimum_confirmations: 1, num_change_outputs: 1, selection_strategy_is_use_all: false, ..Default::default() })?;
+					s.id = p.id;
+					w.wallets[p.fin].receive(&s, None).map(|_| ())
+				})();
+				rep.count(&format!("planted-receive-with-the-id-of-the-pending-send:{}", if planted.is_ok() { "accepted" } else { "refused" }));
+			}
 			let before = w.wallets[p.fin].projection().map(|x| hash64(&(x.outs, x.txs))).unwrap_or(0);
 			let r = catch(|| finalize(&w, &p, &slate));
 			match r {
@@ -905,6 +998,8 @@ pub fn run(a: &Args, prop: &'static str) {
 	if !proof_focus {
 		cancelled_then_finalized(&mut w, &mut rep, &mut rng, prop, a.shard % 2 == 0);
 		cancelled_then_finalized(&mut w, &mut rep, &mut rng, prop, a.shard % 2 == 1);
+		late_lock_cli_order(&mut w, &mut rep, &mut rng, prop, a.shard % 2 == 0);
+		late_lock_cli_order(&mut w, &mut rep, &mut rng, prop, a.shard % 2 == 1);
 	}
 	if proof_focus {
 		named_account_scenario(&mut w, &mut rep, &mut rng, prop, a.shard % 2 == 1);
